@@ -16,7 +16,7 @@ import io
 from lib import S, observe_call, exn_code
 
 ALSO = ["C12b"]   # second engine for this property: the clause regular expression (harness/c12b.py, coq/Props/C12b.v)
-GEN = []
+GEN = ["RefFormatParams", "StructureParams"]
 RULE = ("rf: hand-built card images + random line lists over a 14-symbol alphabet, every REPLACING shape (0-3 pairs, overlapping, "
         "self-creating); sent: printed entry lists with every white-space class as terminator + random texts; "
         "meta: generated copybooks (groups to depth 4, OCCURS, ODO, REDEFINES, FILLER, all usages) x each rewrite kind at every "
